@@ -139,6 +139,11 @@ func (c *cache) Open(readOnly bool) error {
 	// thus we need to create a channel here.
 	c.closeCh = make(chan struct{})
 
+	// Flushers of the previous run are stopped, but the scheduler and the workers
+	// leave in-flight marks of the objects they held when they were told to stop:
+	// forget them, otherwise these objects are never scheduled again.
+	c.flushObjs.Clear()
+
 	c.modeMtx.Lock()
 	if readOnly {
 		c.mode = mode.ReadOnly
